@@ -263,4 +263,33 @@ def SText.denote (t : SText) : Parsed :=
   | [] => .single t.first.denote
   | _ => .multi (t.first.denote :: t.rest.map fun p => p.2.denote) (t.rest.map fun p => some p.1)
 
+/-! ## Grammatical strings -/
+
+/-- a tree is grammatical when it is well formed and what it denotes is canonical (multipliers ≥ 1, values that
+survive the text round trip, sorted non-overlapping intervals …) -/
+def SText.grammatical (t : SText) : Bool := t.wf && canonParsed t.denote
+
+/-- the decidable class of grammatical strings: accepted by the parser with a canonical result. It contains the text of
+every grammatical tree (`Props/C01.render_grammatical`) and the round trip holds on it (`accepted_roundtrip`). -/
+def grammaticalString (s : List Char) : Bool :=
+  match parse true s with
+  | .ok p => canonParsed p
+  | .error _ => false
+
+/-- the parser accepts the string -/
+def accepted (s : List Char) : Bool :=
+  match parse true s with
+  | .ok _ => true
+  | .error _ => false
+
+/-- `serialize` for parse results, with the multi-chain joiner repaired (see `serializeMultiFixed`) -/
+def serializeParsedFixed (plus : Plus) : Parsed → Except Err (List Char)
+  | .single a => .ok (serialize plus a)
+  | .multi as conns => serializeMultiFixed plus as conns
+
+/-- no crosslink among the connections -/
+def noCrosslink : Parsed → Bool
+  | .single _ => true
+  | .multi _ conns => conns.all fun c => c == some false
+
 end Pept
